@@ -49,9 +49,14 @@ def gen(seed: int, tier: str) -> dict[str, Any]:
     ops = []
     for i in range(rng.choice([5, 12, 25])):
         k = rng.choices(["plain_keyed", "plain_unkeyed", "sec_keyed", "sec_unkeyed", "sync", "tool", "sbc", "p2p_secure",
-                         "wrong_key", "malformed_inner", "out_keyed", "out_unkeyed", "out_setter", "out_p2p", "out_bcast"],
-                        [4, 2, 3, 1, 1, 1, 1, 1, 1, 8, 3, 1, 1, 2, 1])[0]
+                         "wrong_key", "malformed_inner", "out_keyed", "out_unkeyed", "out_setter", "out_p2p", "out_bcast", "scf_any"],
+                        [4, 2, 3, 1, 1, 1, 1, 1, 1, 8, 3, 1, 1, 2, 1, 4])[0]
         op: dict[str, Any] = {"op": k, "id": i + 1}
+        if k == "scf_any":
+            # any security control field octet (reserved algorithm identifiers, every service / flag combination), to a keyed
+            # or unkeyed group address or point-to-point
+            op["scf"] = rng.choice([x for x in range(256) if x not in (0x00, 0x10)])
+            op["to"] = rng.choice(["keyed", "keyed", "unkeyed", "p2p"])
         if k == "out_p2p":
             # point-to-point telegrams share the 16-bit raw address space with group addresses: some go to the individual
             # address whose raw value equals the keyed / unkeyed group address
@@ -164,6 +169,17 @@ def run(plan: dict[str, Any]) -> dict[str, Any]:
                 fr = D.secure_frame(key, apdu, nxt(), S1, GK, scf=0x18)
             elif k == "p2p_secure":
                 fr = D.secure_frame(key, bytes((0x03, 0x00)), nxt(), S1, W.ia(5, 0, 1), group=False, ctrl1=0xB0)
+            elif k == "scf_any":
+                scf_ = op["scf"]
+                algo_ = (scf_ >> 4) & 7
+                sq = nxt()
+                dst_ = W.ia(5, 0, 1) if op["to"] == "p2p" else (GK if op["to"] == "keyed" else GU)
+                grp_ = op["to"] != "p2p"
+                ap_ = apdu if grp_ else bytes((0x03, 0x00))
+                # reserved algorithm identifiers have no defined transform: the secured part is built as for the defined
+                # algorithm sharing the lowest identifier bit, the octet on the wire is the one asked for
+                body_ = C.ds_secure(key, ap_, scf_ if algo_ in (0, 1) else (scf_ & 0x9F), sq, S1, dst_, grp_, 0, 0)
+                fr = D.secure_frame(key, ap_, sq, S1, dst_, group=grp_, ctrl1=0xBC if grp_ else 0xB0, scf=scf_, asdu=body_)
             elif k == "wrong_key":
                 fr = D.secure_frame(rng.randbytes(16), apdu, nxt(), S1, GK)
             elif k == "malformed_inner":
@@ -223,7 +239,7 @@ def run(plan: dict[str, Any]) -> dict[str, Any]:
         elif k == "sec_keyed":
             if len(r["delivered"]) != 1 or r["delivered"][0]["secure"] is not True:
                 R.violate("C18.secured-accepted", f"delivered={len(r['delivered'])}", "genuine secured frame not delivered once as Data Secure")
-        elif k in ("sec_unkeyed", "sync", "tool", "sbc", "p2p_secure", "wrong_key"):
+        elif k in ("sec_unkeyed", "sync", "tool", "sbc", "p2p_secure", "wrong_key", "scf_any"):
             if r["delivered"] or r["dev"]:
                 R.violate("C18.rejects", f"{k}-delivered", f"{len(r['delivered'])} telegrams delivered")
         elif k == "malformed_inner":
